@@ -20,7 +20,14 @@ fn stream_word(t: &mut Tape) -> u64 {
 
 /// stream: `k` zero words, then a body drawn from {0, 1, 2, MAX, even, odd, 2^63}
 fn stream(t: &mut Tape, n: usize) -> Vec<u64> {
-    let k = t.pick(&[0, 0, 1, n.saturating_sub(1), n, n + 1, 2 * n, 2 * n + 1, 3 * n]);
+    let k = if t.chance(1, 8) {
+        // a long run of zero draws of the type (d draws of n words, minus / plus a word): a rejection
+        // loop with a hidden bound on the number of attempts gives in here
+        let d = t.pick(&[7usize, 8, 15, 16, 17, 31, 32, 33, 63, 64, 65, 100, 127, 128, 129, 255, 256, 257, 300, 511, 512, 513, 1000, 1023, 1024, 1025, 2047, 2048, 2049]);
+        (d * n + t.pick(&[0usize, 0, 1]) * (n - 1)).saturating_sub(t.pick(&[0usize, 0, 1]))
+    } else {
+        t.pick(&[0, 0, 1, n.saturating_sub(1), n, n + 1, 2 * n, 2 * n + 1, 3 * n])
+    };
     let m = t.usize_in(0, 2 * n + 2);
     let mut w = vec![0u64; k];
     for _ in 0..m {
@@ -99,7 +106,17 @@ pub fn random_fixed_case<const N: usize>(t: &mut Tape, c: &mut Case) -> CaseResu
     let words = stream(t, N);
     let tail = t.u64();
     let seed = t.u64();
-    c.limbs("stream", &words);
+    let lead = words.iter().take_while(|&&w| w == 0).count();
+    c.num("leading zero words", lead as u64);
+    c.limbs("stream after the leading zero words", &words[lead..]);
+    if lead >= 7 * N {
+        c.label(match lead / N {
+            0..=63 => "rng: 7..=63 zero draws of Uint<N> first",
+            64..=255 => "rng: 64..=255 zero draws of Uint<N> first",
+            256..=1023 => "rng: 256..=1023 zero draws of Uint<N> first",
+            _ => "rng: >= 1024 zero draws of Uint<N> first",
+        });
+    }
     c.num("tail seed", tail);
     c.num("chacha seed", seed);
     if words.first() == Some(&0) {
